@@ -35,17 +35,23 @@ func c02Configs(thorough bool) []c01Config {
 		}
 		cs = append(cs, c)
 	}
+	addS := func(name string, byz int, R int32, crashes int, dev int, strategy, base string) {
+		add(name, byz, R, crashes, "dev", dev, 0)
+		cs[len(cs)-1].Strategy, cs[len(cs)-1].Base = strategy, base
+	}
+	// directed base schedules B4/B5 with a crash+restart of every node before every step
+	add("BASE-B4-B5-crash-insertion", 3, 3, 1, "base", 0, 0)
 	if !thorough {
 		add("B-nobyz-R1-crash1-dev1", -1, 1, 1, "dev", 1, 0)
-		add("B-nobyz-R1-crash2-dev2", -1, 1, 2, "dev", 2, 0)
-		for _, byz := range []int{0, 1, 2, 3} {
-			add(fmt.Sprintf("C-byz%d-R1-crash1-dev1", byz), byz, 1, 1, "dev", 1, 0)
-		}
-		add("C-byz3-R2-crash1-dev1", 3, 2, 1, "dev", 1, 0)
+		add("C-byz1-R1-crash1-dev1", 1, 1, 1, "dev", 1, 0)
+		add("C-byz3-R1-crash1-dev1", 3, 1, 1, "dev", 1, 0)
+		addS("S-byz1-equivocate-R1-crash1-dev1", 1, 1, 1, 1, "equivocate", "")
 		add("B-nobyz-R0-crash1-bfs4", -1, 0, 1, "bfs", 0, 4)
 		add("C-byz3-R0-crash1-bfs4", 3, 0, 1, "bfs", 0, 4)
 		return cs
 	}
+	addS("S-byz3-own-R2-crash1-dev1", 3, 2, 1, 1, "own", "")
+	addS("B3-byz3-own-R3-crash1-dev1", 3, 3, 1, 1, "own", "B3")
 	add("B-nobyz-R1-crash2-dev2", -1, 1, 2, "dev", 2, 0)
 	add("B-nobyz-R2-crash2-dev2", -1, 2, 2, "dev", 2, 0)
 	add("B-nobyz-R1-crash3-dev3", -1, 1, 3, "dev", 3, 0)
@@ -54,6 +60,11 @@ func c02Configs(thorough bool) []c01Config {
 	}
 	add("C-byz3-R2-crash2-dev2", 3, 2, 2, "dev", 2, 0)
 	add("C-byz2-R2-crash2-dev2", 2, 2, 2, "dev", 2, 0)
+	for _, st := range []string{"own", "echo", "equivocate"} {
+		addS("S-byz3-"+st+"-R2-crash2-dev2", 3, 2, 2, 2, st, "")
+		addS("B3-byz3-"+st+"-R3-crash2-dev2", 3, 3, 2, 2, st, "B3")
+	}
+	addS("S-byz1-equivocate-R1-crash2-dev2", 1, 1, 2, 2, "equivocate", "")
 	add("B-nobyz-R0-crash2-bfs6", -1, 0, 2, "bfs", 0, 6)
 	add("C-byz3-R0-crash1-bfs6", 3, 0, 1, "bfs", 0, 6)
 	add("C-byz1-R0-crash1-bfs6", 1, 0, 1, "bfs", 0, 6)
